@@ -60,7 +60,7 @@ def gen_cases(rng, tier):
     cases = []
     w_in = (0.55, 0.17, 0.2, 0.08)
     w_out = (0.85, 0.05, 0.07, 0.03)
-    n_random = 170 if tier == "quick" else 2500
+    n_random = 140 if tier == "quick" else 2500
     for _ in range(n_random):
         cfg = G.gen_cfg(rng)
         if not cfg["in"] and rng.random() < 0.8:
@@ -70,7 +70,19 @@ def gen_cases(rng, tier):
         cfg["turns"] = [G.gen_turn(rng, cfg, k + 1, w_in, w_out) for k in range(rng.choice([1, 2, 2, 3, 4]))]
         if rng.random() < 0.12 and G.fits(cfg["ver"], cfg["dialog"], len(cfg["in"]), len(cfg["out"]), sc=True):
             G.add_selfcheck(rng, cfg)
+        elif cfg["ver"] == "1.0" and rng.random() < 0.2:
+            G.purify(rng, cfg, "in")  # the last input rail becomes a pure-Colang rail (reads the flows' view of $user_message)
+        if rng.random() < 0.3:
+            G.collapse_texts(rng, cfg, p_bot=0.3, p_user=0.5)  # user texts / rewrites that repeat earlier ones
+        if rng.random() < 0.25:
+            G.random_opts(rng, cfg)  # 1.0: random per-call generation options
         cases.append(cfg)
+    # user texts that REPEAT around a turn hidden by a fault after `$user_message` was set (see pipeline_cases.REPEAT_PATTERNS)
+    cases.extend(G.repeat_cases(rng, tier, "in"))
+    cases.extend(G.repeat_cases(rng, tier, "in", patterns=G.REFUSAL_REPEAT[:2]))
+    # Colang 1.0 generation options per CALL: conversations (state API and messages) that mix calls switching the input rails off
+    # with calls that pass no options - every call whose options (explicit or default) enable the input rails runs all of them
+    cases.extend(G.options_cases(rng, tier, "in"))
     # every (version, dialog, exceptions) x rail shape, every turn position rejected / rewritten once
     for cfg in G.all_cfgs(IN_SHAPES if tier == "thorough" else IN_SHAPES[:3], carries=("messages", "state") if tier == "thorough" else ("messages",)):
         if not cfg["in"] or not G.fits(cfg["ver"], cfg["dialog"], len(cfg["in"]), len(cfg["out"])):
@@ -98,6 +110,19 @@ def gen_cases(rng, tier):
                     rid = ins[0] if pos == 0 else ins[-1]
                     v = ["w", G.rewrite_text(rng, "in", pos + 1)]
                     c["turns"][pos]["vin"] = [[i, (v if i == rid else vv)] for i, vv in c["turns"][pos]["vin"]]
+                    cases.append(c)
+    # Colang 1.0: the new user message is not the LAST element of the request (a system / context message follows it), with the
+    # history carried by messages+cache and by state: the message must go through the input rails all the same
+    for trail in ("system", "context"):
+        for carry in ("messages", "state"):
+            for dialog in (False, True):
+                for what in (("r", "w", "a") if tier == "thorough" else ("r", "w")):
+                    cfg = {"ver": "1.0", "dialog": dialog, "exc": False, "in": [0, 1], "out": [0], "carry": carry, "gen": "std", "trail": trail}
+                    c = dict(cfg)
+                    c["turns"] = [G.clean_turn(rng, cfg, k + 1) for k in range(2)]
+                    for k in (0, 1):
+                        v = ["w", G.rewrite_text(rng, "in", k + 1)] if what == "w" else what
+                        c["turns"][k]["vin"] = [[i, (v if i == 1 - k else vv)] for i, vv in c["turns"][k]["vin"]]
                     cases.append(c)
     # Colang 2.x: every way the answering flow waits for the user (`user said something` / a literal / a regular
     # expression; the unexpected-utterance path is the dialog configuration): accepted, then rejected by each rail
@@ -129,9 +154,9 @@ def gen_cases(rng, tier):
 
 # ----------------------------------------------------------------------------- oracle (property text, on observations)
 
-def turn_oracle(case, tc, to):
+def turn_oracle(case, tc, to, earlier=()):
     steps = to["steps"]
-    cfg_in = G.eff_in(case)
+    cfg_in = G.eff_in(case, tc)  # the input rails enabled for THIS call (explicit options of the call, or the defaults)
     calls = [(idx, s) for idx, s in enumerate(steps) if s[0] == "rail" and s[1] == "in"]
     ids = [s[2] for _, s in calls]
     # "processed by all configured input rails, in the configured order": what ran is a prefix of the configured order ...
@@ -173,28 +198,49 @@ def turn_oracle(case, tc, to):
         v = G.verdict_of(tc, "in", rid)
         if case["ver"] == "1.0" and G.is_rewrite(v):
             cur, rewritten = v[1], True
+    if stop is None:
+        # every later stage works on the message of THIS turn in its current (possibly rewritten) form
+        for s in steps:
+            if s[0] == "llm" and s[1] != "generate_next_steps" and G.sentinel(cur) not in s[2]:
+                code = "rewritten-not-in-prompt" if rewritten else "current-not-in-prompt"
+                return f"[{code}] the prompt of {s[1]} does not contain the {'rewritten' if rewritten else 'current'} text of this turn ({G.sentinel(cur)})"
     if case["ver"] == "1.0" and rewritten and stop is None:
         orig = G.sentinel(tc["user"])
+        # the same text may legitimately be visible from an EARLIER turn of the conversation (repeated user texts): it is the final
+        # form of that turn's message (part of the history the prompts are rendered from), or the client's own message list is the
+        # prompt (passthrough chat mode forwards the client's history verbatim)
+        legit = any(G.sentinel(_final_user(case, e)) == orig or (case.get("gen") in G.P.PT_MODES and G.sentinel(e["user"]) == orig) for e in earlier)
         for s in steps:
-            if s[0] == "llm":
+            if s[0] == "llm" and not legit:
                 if orig in s[2]:
                     return f"[original-in-prompt] the prompt of {s[1]} contains the original text ({orig}) although an input rail rewrote it"
-                if s[1] != "generate_next_steps" and G.sentinel(cur) not in s[2]:
-                    return f"[rewritten-not-in-prompt] the prompt of {s[1]} does not contain the rewritten text ({G.sentinel(cur)})"
-            if s[0] == "rail" and s[1] == "out" and s[3] and orig in s[3]:
+            if s[0] == "rail" and s[1] == "out" and s[3] and orig in s[3] and orig not in tc["bot"]:
                 return f"[original-in-output] an output rail was shown text containing the original user text ({orig})"
     return None
+
+
+def _final_user(case, tc):
+    """the form of a turn's user text after the rewrites of its input rails (as scripted)"""
+    cur = tc["user"]
+    for rid in G.eff_in(case, tc):
+        v = G.verdict_of(tc, "in", rid)
+        if v in ("r", "f"):
+            break
+        if case["ver"] == "1.0" and G.is_rewrite(v):
+            cur = v[1]
+    return cur
 
 
 def oracle(case, obs):
     for k, (tc, to) in enumerate(zip(case["turns"], obs["turns"])):
         if to["raised"]:
             return None  # `generate` raising is C03's statement; nothing of this turn can be observed
-        msg = turn_oracle(case, tc, to)
+        msg = turn_oracle(case, tc, to, case["turns"][:k])
         if msg:
             return f"turn {k + 1}: {msg}"
     return None
 
 
 def signature(case, obs, msg):
-    return G.region_signature(case, obs, msg, oracle_codes_stale=("in-count", "in-after-reject", "llm-after-reject", "reject-reply"))
+    return G.region_signature(case, obs, msg, oracle_codes_stale=("in-count", "in-after-reject", "llm-after-reject", "reject-reply"),
+                              oracle_codes_trail=("in-count", "llm-after-reject", "reject-reply", "rewritten-not-in-prompt", "original-in-prompt", "current-not-in-prompt"))
